@@ -373,8 +373,23 @@ class OutputFormatter:
     def print_traceback(self, msg, exc_info):
         """Report an error with a traceback."""
         print()
-        print(msg)
-        print(self.format_traceback(exc_info))
+        print(self._printable(msg))
+        print(self._printable(self.format_traceback(exc_info)))
+
+    def _printable(self, text):
+        """Escape what ``sys.stdout`` cannot encode.
+
+        Reporting a failure must not fail itself (e.g. because of a lone
+        surrogate in an exception message).
+        """
+        encoding = getattr(sys.stdout, 'encoding', None)
+        if encoding and isinstance(text, str):
+            try:
+                text.encode(encoding)
+            except UnicodeEncodeError:
+                text = text.encode(
+                    encoding, 'backslashreplace').decode(encoding)
+        return text
 
     def print_std_streams(self, stdout, stderr):
         """Emit contents of buffered standard streams."""
@@ -672,16 +687,16 @@ class ColorfulOutputFormatter(OutputFormatter):
     def print_traceback(self, msg, exc_info):
         """Report an error with a traceback."""
         print()
-        print(self.colorize('error', msg))
+        print(self.colorize('error', self._printable(msg)))
         v = exc_info[1]
         if isinstance(v, DocTestFailureException):
-            self.print_doctest_failure(v.args[0])
+            self.print_doctest_failure(self._printable(v.args[0]))
         elif isinstance(v, doctest.DocTestFailure):
             # I don't think these are ever used... -- mgedmin
-            tb = self.format_traceback(exc_info)
+            tb = self._printable(self.format_traceback(exc_info))
             print(tb)
         else:
-            tb = self.format_traceback(exc_info)
+            tb = self._printable(self.format_traceback(exc_info))
             self.print_colorized_traceback(tb)
 
     def print_doctest_failure(self, formatted_failure):
